@@ -267,6 +267,40 @@ HAND = [
 ]
 
 
+FORMS = ["{X}", "{X}()", "{X}[]", "{X}{{}}", "{X} = y", "{X} = \"y\"", "{X} = 1", "{X} = false", "{X} = true", "{X}(,)", "{X}(y)",
+         "{X}(y = )", "{X}(unsafe)", "{X}(unsafe,)", "{X}(unsafe, unsafe)", "{X}[unsafe]", "{X}(name)", "{X}(name = )",
+         "{X}(name = false)", "{X}(bound)", "{X}(bound())", "{X}(bound(,))", "{X}(bound = 1)", "{X}(ignore = 1)",
+         "{X}(method)", "{X}(method())", "{X}(rank)", "{X}(rank())", "{X}(rank(x))", "{X}(expression)", "{X}(new = 2)",
+         "{X}(u8)", "{X}(u8,)", "{X}(u8, method)", "{X}(u8, bound)", "{X} = -1", "{X} = b\"x\"", "{X} = 'c'", "{X} = 1.5",
+         "{X}(named_field)", "{X}(named_field = 1)", "{X}::y", "y::{X}", "{X}(ignore, ignore = false)"]
+ALLT = ["Debug", "Clone", "Copy", "PartialEq", "Eq", "PartialOrd", "Ord", "Hash", "Default", "Deref", "DerefMut", "Into"]
+
+
+def systematic_forms():
+    """every trait x shape x attribute position x a list of well- and ill-formed argument shapes"""
+    out = []
+    n = 0
+    for t in ALLT:
+        plain = "Into(u8)" if t == "Into" else t
+        for form in FORMS:
+            f = form.format(X=t)
+            cases = [
+                "#[derive(Educe)] #[educe(%s)] struct S<T> { a: T, b: u8 }" % f,
+                "#[derive(Educe)] #[educe(%s)] struct S<T> { #[educe(%s)] a: T, b: u8 }" % (plain, f),
+                "#[derive(Educe)] #[educe(%s)] enum E<T> { V(T, u8), W { x: u8 } }" % f,
+                "#[derive(Educe)] #[educe(%s)] enum E<T> { #[educe(%s)] V(T, u8), W { x: u8 } }" % (plain, f),
+                "#[derive(Educe)] #[educe(%s)] enum E<T> { V(T, #[educe(%s)] u8), W { x: u8 } }" % (plain, f),
+                "#[derive(Educe)] #[educe(%s)] union U { a: u8, b: u16 }" % f,
+                "#[derive(Educe)] #[educe(%s)] union U { #[educe(%s)] a: u8, b: u16 }" % (plain, f),
+            ]
+            if t in ("Debug", "PartialEq", "Hash"):
+                cases.append("#[derive(Educe)] #[educe(%s(unsafe))] union U { #[educe(%s)] a: u8, b: u16 }" % (t, f))
+            for c in cases:
+                out.append(("s%d" % n, c))
+                n += 1
+    return out
+
+
 def gen_inputs(seed, n):
     base = []
     k = 0
@@ -279,7 +313,7 @@ def gen_inputs(seed, n):
             td = G.random_type(rng, G.random_trait_set(rng), G.Opts(rich=rng.random() < 0.3, max_fields=3,
                                                                      max_variants=3))
         base.append(S.render(td, rng, extras=False).replace("::educe::Educe", "Educe"))
-    out = [("h%d" % i, t) for i, t in enumerate(HAND)]
+    out = [("h%d" % i, t) for i, t in enumerate(HAND)] + [("h" + cid, t) for cid, t in systematic_forms()]
     for i in range(n):
         rng = rng_for(seed, PROP, "mut", i)
         out.append(("m%d" % i, mutate_text(rng, rng.choice(base))))
@@ -323,10 +357,10 @@ def main(tier, seed, scale=1.0):
     n_d1 = int((4000 if tier == "quick" else 60000) * scale)
     chk.rule = ("token-level mutations (delete/duplicate/swap/replace/insert/wrap/nest<=64/long lists/stray commas/"
                 "regroup/splice) of the #[educe(..)] arguments of valid random requests + %d hand-written adversarial "
-                "inputs; every input goes through the in-process expansion under catch_unwind (release; 1 in 10 also "
+                "inputs and %d systematic trait x shape x position x argument-form inputs; every input goes through the in-process expansion under catch_unwind (release; 1 in 10 also "
                 "with debug assertions), all in-process panics and a seeded sample go through rustc with the real "
                 "macro in the dev and release profiles; non-trivial = input that differs from its valid base; "
-                "distinct by text" % len(HAND))
+                "distinct by text" % (len(HAND), len(systematic_forms())))
     chk.assumptions = ["an in-process panic that rustc does not reproduce is recorded as inproc_only, not as a "
                        "violation (proc-macro2's fallback prints tokens differently from rustc)",
                        "wall-clock is only a verdict for an isolated input that does not finish within 60 s"]
